@@ -1,10 +1,11 @@
 import PGA.Proofs.UnitsTablesLive
-import PGA.Proofs.UnitsEval
+import PGA.Proofs.UnitsDen
+import PGA.Proofs.Qty
 /-!
 # C10 — unit expressions evaluate to the exact SI value and dimension
 -/
 namespace PGA.Units
-open PGA.SI
+open PGA.SI SExpr
 
 /-! ## Table obligations (decided by the kernel over the regenerated `PGA.Gen.Units`) -/
 
@@ -99,5 +100,178 @@ theorem C10_malformed_rejected (cfg : Cfg) (ts : List Tok) (hd : ∀ t ∈ ts, t
   · exact absurd (hd t hm) hb
 
 example : parseTokens [Tok.word ['m'], .sym '^'] = .error .unitsParse := by decide +kernel
+
+/-! ## T2 — parser and evaluator are correct on all expression trees -/
+
+/-- the table obligation `C10_tab_db_integral` in the form the general theorems use -/
+theorem checkIntegral_sound {cfg : Cfg} (h : checkIntegral cfg = true) : CfgGood cfg := by
+  simp only [checkIntegral, Bool.and_eq_true, decide_eq_true_eq] at h
+  obtain ⟨⟨⟨hdb, _⟩, hthr⟩, _⟩ := h
+  refine ⟨le_of_lt hthr, fun kv hkv => ?_⟩
+  have := (List.all_eq_true.mp hdb) kv hkv
+  simp only [Bool.and_eq_true] at this
+  obtain ⟨hm, hd⟩ := this
+  have hq : ∃ q, kv.2.mag = .exact q := by
+    cases hmag : kv.2.mag with
+    | exact q => exact ⟨q, rfl⟩
+    | inexact n => rw [hmag] at hm; simp [Mag.isExactPos] at hm
+  obtain ⟨q, hq⟩ := hq
+  refine ⟨q, hq, ?_⟩
+  simp only [Dim.isIntegral, Dim.toList, List.all_cons, List.all_nil, Bool.and_true, Bool.and_eq_true] at hd
+  obtain ⟨h1, h2, h3, h4, h5, h6, h7⟩ := hd
+  exact ⟨h1, h2, h3, h4, h5, h6, h7⟩
+
+theorem liveCfg_good : CfgGood liveCfg := checkIntegral_sound C10_tab_db_integral
+
+/-- **T2 (parser)** For every well-formed expression tree — any depth of parentheses, any length of
+left-associated `*`, `/` and juxtaposition chains, integer, negative, fractional and parenthesised powers — the
+parser reads the rendered token list back as the tree's syntax tree: no backtracking path, precedence or
+associativity error exists. -/
+theorem C10_parse_render (e : SExpr) (hwf : e.WF) : parseTokens (render e) = .ok (toTree e) :=
+  parseTokens_render e hwf
+
+/-- **T2** `evalTokens (render e) = ⟦e⟧` for every well-formed tree with integer powers (any depth), over any
+database whose entries are exact magnitudes with integer exponents: a value is the denoted magnitude and
+exponent vector exactly; an unknown name is the units parse error; a zero divisor is the arithmetic error. -/
+theorem C10_eval_render (cfg : Cfg) (hg : CfgGood cfg) (e : SExpr) (hwf : e.WF) (hint : e.IntPows) :
+    match den cfg e with
+    | .ok v => evalTokens cfg (render e) = .ok v.toVal
+    | .error err => evalTokens cfg (render e) = .error err := by
+  have h := eval_den hg e hint
+  simp only [evalTokens, parseTokens_render e hwf, bind, Except.bind]
+  cases hd : den cfg e with
+  | ok v => rw [hd] at h; exact h.1
+  | error err => rw [hd] at h; exact h
+
+/-- the same for the live tables of the working tree (hypothesis discharged by the table obligation) -/
+theorem C10_eval_render_live (e : SExpr) (hwf : e.WF) (hint : e.IntPows) :
+    match den liveCfg e with
+    | .ok v => evalTokens liveCfg (render e) = .ok v.toVal
+    | .error err => evalTokens liveCfg (render e) = .error err :=
+  C10_eval_render liveCfg liveCfg_good e hwf hint
+
+-- non-vacuity: `(k m / s ^ (-2)) 3` is well formed with integer powers
+example : (SExpr.bin (.paren (.bin (.name ['k'] none) .juxt (.bin (.name ['m'] none) .over
+      (.name ['s'] (some ⟨⟨true, ['2']⟩, true⟩)))) none) .juxt (.num ⟨false, ['3']⟩ none)).IntPows := by
+  simp only [IntPows, pwInt]; decide +kernel
+
+/-- `evalTokens (render e)` is the denotation of `e` -/
+def EvalIsDen (cfg : Cfg) (e : SExpr) : Prop :=
+  match den cfg e with
+  | .ok v => evalTokens cfg (render e) = .ok v.toVal
+  | .error err => evalTokens cfg (render e) = .error err
+
+instance (cfg : Cfg) (e : SExpr) : Decidable (EvalIsDen cfg e) := by
+  unfold EvalIsDen; split <;> infer_instance
+
+/-- the statement without the restriction to integer powers … -/
+def C10_eval_render_full : Prop :=
+  ∀ (cfg : Cfg), CfgGood cfg → ∀ e : SExpr, e.WF → EvalIsDen cfg e
+
+/-- … does not hold: a non-integer power of a magnitude other than 0 and 1 is irrational in general; the model
+carries it as an inexact magnitude and `den` does not define it (`4^0.5`). -/
+theorem C10_eval_render_full_false : ¬ C10_eval_render_full := by
+  intro h
+  have := h ⟨1 / 10 ^ 7, [], []⟩ ⟨by decide +kernel, fun kv hkv => by simp at hkv⟩
+    (.num ⟨false, ['4']⟩ (some ⟨⟨false, ['0', '.', '5']⟩, false⟩))
+    ⟨by constructor <;> decide +kernel, by constructor <;> decide +kernel⟩
+  revert this
+  decide +kernel
+
+/-- **T2 (fractional powers, partial)** a sub-expression of magnitude 1 (a coherent SI unit or product of such)
+raised to *any* power literal — fractional, negative — evaluates to magnitude 1 with the exponents scaled (and
+snapped); where the scaled exponents are integers or farther than the threshold from an integer, scaled exactly. -/
+theorem C10_eval_render_fractional_partial (cfg : Cfg) (ht : 0 ≤ cfg.thr) (s : Name) (d : Dim) (p : PowLit)
+    (hl : lookup cfg s = .ok ⟨.exact 1, d⟩) (hp : p.lit.WF) :
+    evalTokens cfg (render (.name s (some p))) = .ok ⟨.exact 1, Dim.pow cfg.thr d p.lit.value⟩ ∧
+    ((Dim.smul p.lit.value d).All (Stable cfg.thr) →
+      evalTokens cfg (render (.name s (some p))) = .ok ⟨.exact 1, Dim.smul p.lit.value d⟩) := by
+  have hparse := parseTokens_render (.name s (some p)) hp
+  have hpow : Mag.pow (.exact 1) p.lit.value = .ok (.exact 1) := by
+    unfold Mag.pow
+    by_cases hi : isInt p.lit.value = true
+    · simp [hi]
+    · simp [hi]
+  have key : evalTokens cfg (render (.name s (some p))) = .ok ⟨.exact 1, Dim.pow cfg.thr d p.lit.value⟩ := by
+    simp only [evalTokens, hparse, bind, Except.bind, toTree, pwTree, evalTree, hl, Mag.isNeg]
+    have : decide ((1 : Rat) < 0) = false := by decide
+    simp only [this, Bool.false_and, Bool.false_eq_true, if_false, Val.pow, hpow, bind, Except.bind, pure, Except.pure]
+  exact ⟨key, fun hs => by rw [key, Dim.pow_of_stable ht hs]⟩
+
+example : lookup liveCfg ['m'] = .ok ⟨.exact 1, ⟨1, 0, 0, 0, 0, 0, 0⟩⟩ := by decide +kernel
+
+/-! ## T4 — conversion laws -/
+
+/-- **T4** `q.in_units(u)` for operands of the same dimension is the ratio of the SI magnitudes (a plain number). -/
+theorem C10_in_units_ratio (thr : Rat) (ht : 0 ≤ thr) (x m : Rat) (d : Dim) (hm : m ≠ 0) :
+    inUnits thr ⟨.exact x, d⟩ ⟨.exact m, d⟩ = .ok (.exact (x / m)) := by
+  have hz : (Dim.zero).isZero = true := by decide
+  simp [inUnits, Val.div, Mag.div, Mag.isZero, hm, Mag.mul, Mag.inv, bind, Except.bind, pure, Except.pure,
+    Dim.div_self ht, hz, Rat.div_def]
+
+/-- **T4** conversion between dimensions that differ (by more than the threshold in some exponent; for integer
+exponents: that differ at all) is the units error. -/
+theorem C10_in_units_incompatible (thr : Rat) (ht : 0 ≤ thr) (x m : Rat) (dq du : Dim) (hm : m ≠ 0)
+    (hd : PGA.Qty.Dim.Differs thr dq du) :
+    inUnits thr ⟨.exact x, dq⟩ ⟨.exact m, du⟩ = .error .unitsError := by
+  have hne : (Dim.div thr dq du).isZero = false := by
+    rw [← Bool.not_eq_true, Dim.isZero_iff]; exact PGA.Qty.div_ne_zero_of_differs ht hd
+  simp [inUnits, Val.div, Mag.div, Mag.isZero, hm, bind, Except.bind, pure, Except.pure, hne]
+
+theorem C10_in_units_incompatible_integral (thr : Rat) (ht : 0 ≤ thr) (ht1 : thr < 1) (x m : Rat) (dq du : Dim)
+    (hm : m ≠ 0) (hq : dq.Integral) (hu : du.Integral) (hd : dq ≠ du) :
+    inUnits thr ⟨.exact x, dq⟩ ⟨.exact m, du⟩ = .error .unitsError :=
+  C10_in_units_incompatible thr ht x m dq du hm (PGA.Qty.differs_of_integral ht1 hq hu hd)
+
+/-- **T4** `in_units(with_units(x, u), u) = x` for every non-zero number `x` and every unit `u` of non-zero
+magnitude whose exponents `_build` leaves alone.  (`x = 0`: `with_units` returns the bare number 0, which has no
+`in_units` — F12, repaired under C12; hence `_partial`.) -/
+theorem C10_in_with_units_partial (thr : Rat) (ht : 0 ≤ thr) (x m : Rat) (d : Dim) (hx : x ≠ 0) (hm : m ≠ 0)
+    (hs : d.All (Stable thr)) :
+    inUnits thr (withUnits thr x ⟨.exact m, d⟩) ⟨.exact m, d⟩ = .ok (.exact x) := by
+  have hd : Dim.mul thr Dim.zero d = d := by
+    have h0 : Dim.add Dim.zero d = d := Dim.zero_add d
+    rw [Dim.mul_of_stable ht (by rw [h0]; exact hs), h0]
+  have hz : (Dim.zero).isZero = true := by decide
+  have : x * m * m⁻¹ = x := by field_simp
+  simp [withUnits, hx, Val.mul, Val.plain, Mag.mul, hd, inUnits, Val.div, Mag.div, Mag.isZero, hm, Mag.inv, bind,
+    Except.bind, pure, Except.pure, Dim.div_self ht, hz, this]
+
+/-- the full statement (all `x`) … -/
+def C10_in_with_units_full : Prop :=
+  ∀ (thr x m : Rat) (d : Dim), 0 ≤ thr → m ≠ 0 → d.All (Stable thr) → d ≠ Dim.zero →
+    inUnits thr (withUnits thr x ⟨.exact m, d⟩) ⟨.exact m, d⟩ = .ok (.exact x)
+
+/-- … fails at `x = 0`: `with_units(0, 'm')` is the bare `0`, and converting it "to metres" is the units error in
+the model (an `AttributeError` in `helpers.in_units`, which calls a method of the plain number). -/
+theorem C10_in_with_units_full_false : ¬ C10_in_with_units_full := by
+  intro h
+  have := h (1 / 10 ^ 7) 0 1 ⟨1, 0, 0, 0, 0, 0, 0⟩ (by decide +kernel) (by decide +kernel)
+    ⟨Or.inl (by decide +kernel), Or.inl (by decide +kernel), Or.inl (by decide +kernel), Or.inl (by decide +kernel),
+     Or.inl (by decide +kernel), Or.inl (by decide +kernel), Or.inl (by decide +kernel)⟩ (by decide +kernel)
+  revert this
+  decide +kernel
+
+/-- **T4** `from_SI_to(to_SI_from(x, u), u) = x` for every unit of non-zero magnitude … -/
+theorem C10_from_to_SI (x m : Rat) (d : Dim) (hd : d.isZero = false) (hm : m ≠ 0) :
+    toSI x ⟨.exact m, d⟩ = .ok (.exact (x * m)) ∧ fromSI (x * m) ⟨.exact m, d⟩ = .ok (.exact x) := by
+  have : x * m * m⁻¹ = x := by field_simp
+  simp [toSI, fromSI, hd, Mag.mul, Mag.div, Mag.isZero, hm, Mag.inv, this]
+
+/-- **T4** … and `to_SI_from(from_SI_to(x, u), u) = x`. -/
+theorem C10_to_from_SI (x m : Rat) (d : Dim) (hd : d.isZero = false) (hm : m ≠ 0) :
+    fromSI x ⟨.exact m, d⟩ = .ok (.exact (x / m)) ∧ toSI (x / m) ⟨.exact m, d⟩ = .ok (.exact x) := by
+  have : x / m * m = x := by field_simp
+  simp [toSI, fromSI, hd, Mag.mul, Mag.div, Mag.isZero, hm, Mag.inv, this, Rat.div_def]
+
+/-- general form of the lookup order used by the table obligations: a name in the database is itself; otherwise a
+one-letter prefix is tried, then the two-letter prefix `da` — never a `KeyError`. -/
+theorem C10_lookup_prefixed (cfg : Cfg) (n : Name) :
+    (∀ v, cfg.db.find n = some v → lookup cfg n = .ok v) ∧
+    (cfg.db.find n = none → ∀ v p, cfg.db.find (n.drop 1) = some v → cfg.prefixes.find (n.take 1) = some p →
+      lookup cfg n = .ok (scale cfg.thr p v)) ∧
+    (∀ e, lookup cfg n = .error e → e = .unitsParse) := by
+  refine ⟨fun v h => by simp only [lookup, h], fun hn v p hv hp => by simp only [lookup, hn, hv, hp],
+    fun e h => lookup_error h⟩
 
 end PGA.Units
